@@ -117,9 +117,9 @@ def make_open(world, real_open=open):
     return fake_open
 
 
-def make_stdout(world, name='<stdout>'):
+def make_stdout(world, name='<stdout>', line_buffering=False, buffer_size=8192):
     raw = FaultyRaw(world, name, None)
-    return io.TextIOWrapper(io.BufferedWriter(raw, buffer_size=8192), encoding='utf-8', line_buffering=False)
+    return io.TextIOWrapper(io.BufferedWriter(raw, buffer_size=buffer_size), encoding='utf-8', line_buffering=line_buffering)
 
 
 FAULT_ERRNOS = [errno.ENOSPC, errno.EIO, errno.EPIPE]
